@@ -322,8 +322,52 @@ func c17Mux(c *Ctx) {
 	}
 }
 
+// c17MuxLookahead: the look-ahead a ReadNext call leaves behind must survive whatever the caller
+// does with its scratch buffer between two calls — through the mux: several messages arrive in one
+// read, the handler answers each message (with a longer reply) before receiving the next.
+func c17MuxLookahead(c *Ctx) {
+	sfx, err := newStreamFx(larking.MaxReceiveMessageSizeOption(1 << 16))
+	if err != nil {
+		c.Note("c17 mux fixture: " + err.Error())
+		return
+	}
+	fx := sfx.fx
+	for i := 0; i < c.N(120, 1500); i++ {
+		codec := []string{"proto", "json"}[i%2]
+		var msgs [][]byte
+		var wire []byte
+		for j, k := 0, 2+c.Rng.Intn(4); j < k; j++ {
+			d := make([]byte, []int{0, 1, 2, 3, 5, 8, 20, 40}[c.Rng.Intn(8)])
+			c.Rng.Read(d)
+			msgs = append(msgs, d)
+			enc := encodeMsg(fx, codec, d)
+			if codec == "proto" {
+				wire = protowire.AppendVarint(wire, uint64(len(enc)))
+			}
+			wire = append(wire, enc...)
+		}
+		var sched []int // nil: everything in one read — the largest look-ahead
+		if i%3 == 2 {
+			sched = genSched(c, len(wire))
+		}
+		ct := map[string]string{"proto": "application/protobuf", "json": "application/json"}[codec]
+		sfx.reset(nil)
+		rec, pn := sfx.serveStream("POST", "/c06/bidi", map[string]string{"Content-Type": ct, "Accept": ct}, wire, sched, c.Rng.Intn(2) == 0, false)
+		in := fmt.Sprintf("mux-lookahead-%s msgs=%d wire=%x sched=%v (the handler replies between receives)", codec, len(msgs), trunc(wire, 80), trunc2(sched, 12))
+		c.Eval("mux-lookahead", in, true)
+		ok := pn == nil && rec.Code == 200 && len(sfx.got) == len(msgs) && sfx.final == "eof"
+		for k := 0; ok && k < len(msgs); k++ {
+			ok = bytes.Equal(sfx.got[k], msgs[k])
+		}
+		if !ok {
+			c.SpecFail("mux-lookahead", in, fmt.Sprintf("code=%d handler got %d messages final=%s panic=%v", rec.Code, len(sfx.got), sfx.final, pn), fmt.Sprintf("%d messages then eof", len(msgs)), "C17/mux-lookahead/sequence", "the bytes carried from one ReadNext call to the next do not survive the caller's use of its buffer")
+		}
+	}
+}
+
 func runC17(c *Ctx) {
 	c17Mux(c)
+	c17MuxLookahead(c)
 	c.Rule("per codec (proto, json, body chunker, readAll): message sequences of 0..4 messages over boundary sizes, every composition of short wires (<= 9 bytes quick, <= 12 thorough) into reads and sampled schedules of long ones, EOF with the last data or separately, initial carry 0..3 bytes and spare capacity {0,1,2,5,64,512}, limits around each message size, all 1..10-byte length prefixes incl. 2^63 and 2^64-1, every truncation offset. Each ReadNext call is corresponded with the model on the recorded schedule; the sequence-level oracle compares what was read with what was written. Non-trivial: non-empty wire; distinct by kind+input.")
 	c.Assume("readers obey io.Reader (never (0,nil) forever); limit > 0 as the mux passes it")
 
